@@ -103,7 +103,15 @@ func checkC13(c *fw.Ctx) {
 	}
 	wantStores := map[string]recon{
 		"Method":     {"*req.Method", isReqFieldLoad("Method")},
-		"RequestURI": {"req.URL.RequestURI()", fw.IsResultOf(fw.NameIs("(*net/url.URL).RequestURI"), -1)},
+		"RequestURI": {"req.URL.RequestURI()", func(v ssa.Value) bool {
+			// RequestURI() of the request's own URL, not of a URL rebuilt from some of its parts
+			// (a rebuilt one loses RawPath: the escapes the sender signed)
+			cc, _ := fw.CallOf(v)
+			if cc == nil || fw.CalleeName(cc) != "(*net/url.URL).RequestURI" || len(cc.Common().Args) == 0 {
+				return false
+			}
+			return strings.HasSuffix(strings.TrimLeft(fw.Sig(cc.Common().Args[0]), "*&"), "param:req.URL")
+		}},
 		"Content":    {"io.ReadAll(req.Body)", fw.IsResultOf(fw.NameIs("io.ReadAll"), 0)},
 	}
 	for _, f := range fw.SortedKeys(wantStores) {
